@@ -34,6 +34,7 @@ type Config struct {
 	NoWriteOps  bool   `json:"nowrite,omitempty"`   // like `serve http`: writeOps=nil, getFileBuffer=nil
 	KeySet      int    `json:"keyset,omitempty"`    // which key set to use for reading (1 = the wrong one)
 	Overwrite   bool   `json:"overwrite,omitempty"` // TapeManager constructed with overwrite=true (explicit overwrite on first use)
+	WPIR        bool   `json:"wpir,omitempty"`      // NewSTFS(writePermImpliesReadPerm=true), what `serve ftp` passes
 }
 
 func (c Config) String() string {
@@ -46,6 +47,9 @@ func (c Config) String() string {
 	}
 	if c.Overwrite {
 		s += " overwrite-manager"
+	}
+	if c.WPIR {
+		s += " write-perm-implies-read-perm"
 	}
 	return s
 }
@@ -493,7 +497,7 @@ func NewStack(dir string, cfg Config, keys *Keys) (*Stack, error) {
 		writeOps = nil
 		getBuf = nil
 	}
-	s.FS = fs.NewSTFS(s.ReadOps, writeOps, metadataConfig, cfg.Level, getBuf, cfg.ReadOnly, false, func(hdr *config.Header) {}, nopLogger{})
+	s.FS = fs.NewSTFS(s.ReadOps, writeOps, metadataConfig, cfg.Level, getBuf, cfg.ReadOnly, cfg.WPIR, func(hdr *config.Header) {}, nopLogger{})
 	s.AFS = s.FS
 	return s, nil
 }
